@@ -16,7 +16,6 @@ KNOWN_FONT = 'stroked-text-huge-font-size'
 KNOWN_IMAGE = 'image-huge-size'
 KNOWN_TORIGIN = 'transform-origin-sign'
 KNOWN_ARC = 'path-arc-huge'
-KNOWN_USE = 'use-expansion-loop'          # shared with C03: Err instead of a tree, not a totality violation
 
 # CPU-time budget of one Tree::from_data call: A + B * bytes (microseconds, thread CPU time measured inside the worker).
 # Noise floor measured over the whole corpus (1695 files) with 16 workers on a loaded machine (load average 60):
